@@ -87,6 +87,18 @@ def gen(stratum, rng, tier):
             calls.append({"assumptions": cnf.with_assumptions(rng, clauses)})
         if rng.random() < 0.3:
             calls.append(cnf.tuning(rng))
+        if rng.random() < 0.03:
+            # the empty formula (a CNF with no clause): everything then rests on the assumption list
+            clauses = []
+            calls = [{}]
+            for _ in range(rng.randint(1, 3)):
+                a = [rng.choice([-1, 1]) * rng.randint(1, 5) for _ in range(rng.randint(1, 4))]
+                if rng.random() < 0.3:
+                    a.append(-a[0])  # contradictory assumptions: no model
+                kw = {"assumptions": a}
+                if rng.random() < 0.5:
+                    kw["solution_limit"] = rng.choice([2, 5, 100])
+                calls.append(kw)
     elif stratum == "threshold":
         clauses = cnf.threshold(rng)
         calls = [{}, {"luby_factor": rng.choice([1, 2, 5])}]
